@@ -10,7 +10,7 @@ ids = [json.loads(l)["id"] for l in open(os.path.join(ROOT, "properties.jsonl"))
 checks, na = [], []
 for pid in ids:
     p = CFG.PROPS.get(pid)
-    if p is None or p.get("unclaimed"):
+    if p is None or p.get("unclaimed") or pid not in static["claimed"]:
         reason = (p or {}).get("unclaimed") or static["not_built_reason"]
         na.append({"property_id": pid, "reason": reason})
         continue
